@@ -24,4 +24,9 @@ theorem integration_wiring :
     ∧ Gen.integration_result_buffers = "dtype = np.result_type(self.meta.input_dtype, np.float32) ; return {'integration': self.buffer(kind='nav', extra_shape=(self.params.centers.shape[-2],), dtype=dtype)}" := by
   refine ⟨rfl, rfl, rfl⟩
 
+/-- further text of the current source that the model takes for granted (glue between library calls: argument lists, output
+allocation, loop bodies) -- a change there is a change of the tie -/
+theorem text_pins_more :
+    Gen.refine_result_buffers = "super_buffers = super().get_result_buffers() ; num_disks = len(self.params.peaks) ; my_buffers = {'zero': self.buffer(kind='nav', extra_shape=(2,), dtype='float32'), 'a': self.buffer(kind='nav', extra_shape=(2,), dtype='float32'), 'b': self.buffer(kind='nav', extra_shape=(2,), dtype='float32'), 'selector': self.buffer(kind='nav', extra_shape=(num_disks,), dtype='bool'), 'error': self.buffer(kind='nav', dtype='float32')} ; super_buffers.update(my_buffers) ; return super_buffers" := rfl
+
 end C11
